@@ -384,12 +384,12 @@ class Run:
                     self.cov["jsonfault_lines_parsed"] += nlines
                     for f in fails[:1]:
                         self.violations.append(("oracle_jsonfault", self.replay_for(lines, i),
-                                                "a throwing JSON sink left something behind / the file is not one object per delivered statement: " + f))
+                                                "property fails on the real code: a throwing JSON sink left something behind / the file is not one object per delivered statement: " + f))
                 if len(self.samples) < 6 and any(kinds) and len(self.samples) >= 4:
                     self.samples.append({"source": label, "case": [" ".join(w[:1] + w[3:4]) + " => " + " ".join("%s=%s" % (k, v[:60]) for k, v in o.items()) for w, o in jf_case]})
             elif ln.startswith("ORACLE jf-"):
                 self.violations.append(("oracle_jsonfault", self.replay_for(lines, i - 1),
-                                        "a throwing JSON sink left something behind on the real code: " + ln[:400]))
+                                        "property fails on the real code: a throwing JSON sink left something behind: " + ln[:400]))
             elif ln.startswith("ORACLE "):
                 w = ln.split()
                 d = kv(w[2:])
@@ -532,6 +532,7 @@ def run(prop, tier):
 
     # ---- verdicts --------------------------------------------------------------------------------------------
     seen = set()
+    R.violations.sort(key=lambda v: len(v[1]) if v[0] == "oracle_jsonfault" else 0)   # shortest failing fault case first (stable)
     for tag, replay, text in R.violations:
         if tag in seen:
             continue
